@@ -39,6 +39,13 @@ def write_replay(prop, seed, tag, payload):
 
 def evaluate(P, cases, tier):
     """runs both sides and judges; returns (findings, stats)"""
+    # observations are keyed by case id: a generator that re-uses an id would make one case be judged against another's output
+    seen_ids = {}
+    for c in cases:
+        k = seen_ids.get(c[1], 0)
+        seen_ids[c[1]] = k + 1
+        if k:
+            c[1] = '%s~dup%d' % (c[1], k)
     lines = [sexp.dump(c) for c in cases]
     t0 = time.time()
     impl = core.run_harness(lines, P.POINTS, isolate=getattr(P, 'ISOLATE', False),
